@@ -17,7 +17,7 @@ PID = "C08"
 EXPLANATION = (
     "A script of k operations is chosen by the solver from producer ops {feed_data of 1-2 symbolic bytes, "
     "feed_data(b''), begin/end_http_chunk_receiving, feed_eof, set_exception} and consumer ops {read(1), read(2), "
-    "read(-1), readany, readline, readexactly(2), readchunk, read_nowait(1), read_nowait(-1), unread-free}; the real "
+    "read(-1), readany, readline, readexactly(2), readchunk, read_nowait(1), read_nowait(-1), one step of the async iterators iter_chunks / iter_any / iter_chunked(2) / lines}; the real "
     "StreamReader runs them (a read that blocks stays a suspended task that later ops wake). After every step: bytes "
     "returned so far are a prefix of the bytes fed (equal at EOF), the EOF signal is only given after feed_eof with an "
     "empty buffer, readchunk boundaries are the sender's, the water-mark rules hold and no reader is blocked on an empty "
@@ -30,7 +30,10 @@ ASSUMPTIONS = [
 TRUSTED = []
 
 PRODUCER = ["feed1", "feed2", "feed0", "begin", "end", "eof", "exc"]
-CONSUMER = ["read1", "read2", "readall", "readany", "readline", "readexactly2", "readchunk", "nowait1", "nowaitall"]
+CONSUMER = ["read1", "read2", "readall", "readany", "readline", "readexactly2", "readchunk", "nowait1", "nowaitall",
+            "iterchunks", "iterany", "iterchunked2", "iterline"]
+ITER = {"iterchunks": lambda sr: sr.iter_chunks(), "iterany": lambda sr: sr.iter_any(),
+        "iterchunked2": lambda sr: sr.iter_chunked(2), "iterline": lambda sr: sr.__aiter__()}
 OPS = PRODUCER + CONSUMER
 
 
@@ -62,6 +65,7 @@ def script(ctx, k=4, limit=1, first=(), ops=None, sym_limit=False):
     only_readchunk = True
     trace = []
     results = []
+    iters = {}
 
     def finish(kind, t):
         nonlocal got, errored, pending, pending_kind
@@ -78,7 +82,12 @@ def script(ctx, k=4, limit=1, first=(), ops=None, sym_limit=False):
                 got = got + e.partial
             return
         r = t.result()
-        if kind == "readchunk":
+        if kind in ITER:
+            what, r = r
+            if what == "stop":
+                results.append((kind, "stop", None))
+                return
+        if kind in ("readchunk", "iterchunks"):
             data, end = r
             got = got + data
             if end:
@@ -145,7 +154,7 @@ def script(ctx, k=4, limit=1, first=(), ops=None, sym_limit=False):
             else:
                 if pending is not None:
                     continue
-                if op != "readchunk":
+                if op not in ("readchunk", "iterchunks"):
                     only_readchunk = False
                 if op in ("nowait1", "nowaitall"):
                     try:
@@ -155,6 +164,19 @@ def script(ctx, k=4, limit=1, first=(), ops=None, sym_limit=False):
                     except Exception as e:  # noqa: BLE001
                         results.append((op, "raise", type(e).__name__))
                         errored = True
+                elif op in ITER:
+                    if op not in iters:
+                        iters[op] = ITER[op](sr)
+
+                    async def step(it):
+                        try:
+                            return ("item", await it.__anext__())
+                        except StopAsyncIteration:
+                            return ("stop", None)
+
+                    pending = asyncio.Task(step(iters[op]), loop=loop)
+                    pending_kind = op
+                    pending.add_done_callback(lambda t, kind=op: finish(kind, t))
                 else:
                     coro = {"read1": lambda: sr.read(1), "read2": lambda: sr.read(2), "readall": lambda: sr.read(-1),
                             "readany": sr.readany, "readline": sr.readline, "readexactly2": lambda: sr.readexactly(2),
@@ -169,10 +191,17 @@ def script(ctx, k=4, limit=1, first=(), ops=None, sym_limit=False):
             for (kind, r, end) in results[nres:]:
                 if r == "raise":
                     continue
+                if r == "stop":
+                    # the async iterators end the loop: that is the end-of-stream signal
+                    if not (eof and not sr._buffer) and not errored:
+                        raise _V(f"eof-signalled-before-end:{kind}", i)
+                    continue
+                if kind in ITER and kind != "iterchunks" and len(r) == 0 and not errored:
+                    raise _V(f"iterator-yields-empty-item:{kind}", i)
                 if kind in ("read1", "read2", "readany", "readline") and len(r) == 0:
                     if not (eof and not sr._buffer) and not errored:
                         raise _V(f"eof-signalled-before-end:{kind}", i)
-                if kind == "readchunk" and len(r) == 0 and end is False:
+                if kind in ("readchunk", "iterchunks") and len(r) == 0 and end is False:
                     if not (eof and not sr._buffer) and not errored:
                         raise _V("eof-signalled-before-end:readchunk", i)
             if loop.exc:
@@ -249,7 +278,14 @@ def jobs(tier):
     for rest in (3, 4) if quick else (4, 5):
         out.append(dict(name=f"chunk-prefix-{rest}", func="script",
                         params=dict(k=2 + rest, limit=1, first=["begin", "feed1"],
-                                    ops=["feed1", "end", "begin", "eof", "read1", "readany", "readchunk", "readexactly2"]),
+                                    ops=["feed1", "end", "begin", "eof", "read1", "readany", "readchunk", "readexactly2",
+                                         "iterchunks"]),
+                        limits=lim))
+    # chunk data consumed before its terminator arrives / a read ending exactly on a chunk boundary
+    for pre in (["begin", "feed1", "read1", "end"], ["begin", "feed2", "end", "read2"]):
+        out.append(dict(name="chunk-boundary-" + "-".join(pre[2:]), func="script",
+                        params=dict(k=len(pre) + (3 if quick else 4), limit=1, first=pre,
+                                    ops=["feed1", "begin", "end", "eof", "readchunk", "iterchunks", "iterany", "read1"]),
                         limits=lim))
     out.append(dict(name="limit2-k4", func="script", params=dict(k=4, limit=2,
                                                                   ops=["feed1", "feed2", "eof", "read1", "readany", "readline", "begin", "end", "readchunk"]),
@@ -266,6 +302,6 @@ REQUIRED_OUTCOMES = ("eof", "open", "open:blocked", "wm")
 
 
 def bounds(tier):
-    return {"script_length": "4 (quick) / 5 (thorough) over 16 operations, all scripts; chunk conversations: prefix begin,feed + 3-4 (quick) / 4-5 more ops over 8 operations",
+    return {"script_length": "4 (quick) / 5 (thorough) over 20 operations, all scripts; chunk conversations: prefix begin,feed + 3-4 (quick) / 4-5 more ops over 8 operations",
             "data": "feed_data of 0/1/2 fully symbolic bytes", "limit": "1 (all scripts), 2 (k=4, 9 ops), symbolic 1..3 (k=3); water-mark lemma for every limit in 1..2**40",
-            "reads": "read(1) read(2) read(-1) readany readline readexactly(2) readchunk read_nowait(1) read_nowait(-1)"}
+            "reads": "read(1) read(2) read(-1) readany readline readexactly(2) readchunk read_nowait(1) read_nowait(-1); one step of iter_chunks / iter_any / iter_chunked(2) / async-for lines on a persistent iterator"}
